@@ -31,7 +31,7 @@ type Event struct {
 
 // Env carries the recorder log and knobs shared by all callbacks of one built schema.
 type Env struct {
-	Log       []Event
+	Log []Event
 	// Silent: callbacks do not record (the Env is then safe to share between goroutines).
 	Silent    bool
 	WatchKeys []string
@@ -369,6 +369,22 @@ type sharedSchema struct {
 	t reflect.Type
 }
 
+// rotatedStruct returns the struct type with its fields rotated by k: the same
+// field names and types in another declaration order (a different Go type
+// that one schema object may legitimately be used with).
+func rotatedStruct(t reflect.Type, k int) reflect.Type {
+	if t.Kind() != reflect.Struct || t.NumField() < 2 || k%t.NumField() == 0 || t == reflect.TypeOf(time.Time{}) {
+		return t
+	}
+	n := t.NumField()
+	fields := make([]reflect.StructField, n)
+	for i := 0; i < n; i++ {
+		f := t.Field((i + k) % n)
+		fields[i] = reflect.StructField{Name: f.Name, Type: f.Type, Tag: f.Tag}
+	}
+	return reflect.StructOf(fields)
+}
+
 // Build turns a node into a zog schema and the Go type of its destination.
 // Nodes carrying the same non-zero ShareID yield the same schema object.
 func Build(n *Node, e *Env) (z.ZogSchema, reflect.Type) {
@@ -377,11 +393,11 @@ func Build(n *Node, e *Env) (z.ZogSchema, reflect.Type) {
 			e.shared = map[int]sharedSchema{}
 		}
 		if sh, ok := e.shared[n.ShareID]; ok {
-			return sh.s, sh.t
+			return sh.s, rotatedStruct(sh.t, n.TypeRot)
 		}
 		s, t := build(n, e)
 		e.shared[n.ShareID] = sharedSchema{s, t}
-		return s, t
+		return s, rotatedStruct(t, n.TypeRot)
 	}
 	return build(n, e)
 }
@@ -608,6 +624,14 @@ func build(n *Node, e *Env) (z.ZogSchema, reflect.Type) {
 			return z.Preprocess(func(data string, ctx z.Ctx) (string, error) {
 				e.preCall(n, data, ctx)
 				return "", errors.New("preprocess refused")
+			}, es), et
+		case "maybe": // fails for inputs containing "bad", otherwise the identity
+			return z.Preprocess(func(data string, ctx z.Ctx) (string, error) {
+				e.preCall(n, data, ctx)
+				if strings.Contains(data, "bad") {
+					return "", errors.New("preprocess refused")
+				}
+				return data, nil
 			}, es), et
 		case "any":
 			return z.Preprocess(func(data any, ctx z.Ctx) (any, error) {
